@@ -1,6 +1,7 @@
 //! C01 — one handler at a time, in lifecycle order.
 use vsched::explore::Job;
 use vsched::report::{Plan, Unit};
+#[allow(unused_imports)]
 use vsched::{ExecCfg, Outcome};
 
 use crate::common::*;
